@@ -34,6 +34,7 @@ func runC17(c *Ctx) {
 	c17R6(c)
 	c17R8(c)
 	c17R9(c)
+	c17R10(c)
 	livePersisted(c, c.R.Rule("R7", "K8 what is persisted is the live instance: a pipeline/connector/processor service method that fetched an instance hands that very instance to store.Set, or a copy that sets every exported field", 10))
 }
 
@@ -644,4 +645,62 @@ func c17R9(c *Ctx) {
 		fixed := isConstObj(a[len(a)-1], cfgType)
 		c.R.Check(!fixed, r, "transactionalImport: the provision type is chosen by the caller", c.Pos(call.Pos()), "parameter", "transactionalImport imports with the constant pipeline.ProvisionTypeConfig although it is reached from the ApplyPipeline API call (PipelineAPIv1.ApplyPipeline → ApplyPlanLive): the applied pipeline counts as file-provisioned, and provisioning.Service.Init → deleteOldPipelines removes every such pipeline that is not in the pipelines directory — after the next start the pipeline, its connectors and their positions are gone", true)
 	}
+}
+
+// c17R10: F70/F72. Start-up provisioning deletes every file-provisioned pipeline whose id is not found in the files —
+// with its connectors and their positions. (a) A file that fails to PARSE does not contribute its ids, so the stored
+// pipeline it defines would be taken for removed: nothing is deleted in a start in which a file failed to parse.
+// (b) The duplicated-id clean-up removes config entries by index; indexes computed once are valid for ONE removal —
+// removing per duplicated id inside the loop panics on the start-up path or drops the wrong pipelines.
+func c17R10(c *Ctx) {
+	r := c.R.Rule("R10", "K3 what start-up provisioning deletes: provisioning.Service.Init calls deleteOldPipelines only behind the no-file-failed-to-parse edge (a flag set on parsePipelineConfigFile's failure edge), and removes duplicate config entries by index outside the loop over the duplicated ids", 3)
+	fn := c.SSA(r, pProv, "(*Service).Init")
+	del := c.Fn(r, pProv, "(*Service).deleteOldPipelines")
+	parse := c.Fn(r, pProv, "(*Service).parsePipelineConfigFile")
+	delIdx := c.Fn(r, pProv, "(*Service).deleteIndexes")
+	dup := c.Fn(r, pProv, "(*Service).findDuplicateIDs")
+	if fn == nil || del == nil || parse == nil || delIdx == nil || dup == nil {
+		return
+	}
+	gFail := kit.NewGates()
+	for _, pc := range kit.CallsTo(fn, Set(parse)) {
+		gFail.AddEdges(kit.FailEdges(pc), "parse failed")
+	}
+	g := kit.NewGates()
+	for _, phi := range boolFlagsSetBehind(fn, gFail) {
+		g.AddEdges(kit.CondEdges(phi, false), "!parseFailed")
+	}
+	c.Dominated(r, "provisioning.Init: stored pipelines are deleted only when every file parsed", asInstrs(kit.CallsTo(fn, Set(del))), g, "the !parseFailed edge")
+	// duplicates: the loop ranging over findDuplicateIDs' result contains no deleteIndexes on the config list
+	loops := kit.Loops(fn)
+	for _, dc := range kit.CallsTo(fn, Set(dup)) {
+		_ = dc
+	}
+	inLoop := false
+	var at ssa.Instruction
+	for _, call := range kit.CallsTo(fn, Set(delIdx)) {
+		for _, l := range loops {
+			if !l.Contains(call) {
+				continue
+			}
+			// is this the loop over the duplicated ids (a map range over findDuplicateIDs' result)?
+			for b := range l.Blocks {
+				for _, in := range b.Instrs {
+					if nx, ok := in.(*ssa.Next); ok {
+						if rg, ok := nx.Iter.(*ssa.Range); ok {
+							if cl, ok := rg.X.(*ssa.Call); ok && kit.CalleeOf(cl.Common()) == dup {
+								inLoop, at = true, call
+							}
+						}
+					}
+				}
+			}
+		}
+	}
+	pos := c.Pos(fn.Pos())
+	if at != nil {
+		pos = c.Pos(at.Pos())
+	}
+	c.R.Check(!inLoop, r, "provisioning.Init: duplicate entries are removed in one go", pos, "outside the loop", "Init removes the duplicated config entries inside the loop over the duplicated ids: the indexes findDuplicateIDs computed refer to the list before any removal, so with two different duplicated ids the second removal uses stale indexes — a slice-bounds panic on the start-up path or, depending on map order, the valid pipeline dropped and a stored copy of it deleted with its positions", true)
+	c.R.Check(len(kit.CallsTo(fn, Set(delIdx))) >= 1, r, "provisioning.Init: deleteIndexes call", c.Pos(fn.Pos()), "found", "no deleteIndexes call in Init", true)
 }
